@@ -283,6 +283,9 @@ func (cl *compiler) compileAssignStmt(assign *ast.AssignStmt) {
 	if len(assign.Rhs) != 1 {
 		panic(cl.errorf(assign, "only single right operand is allowed in assignments"))
 	}
+	if assign.Tok != token.DEFINE && assign.Tok != token.ASSIGN {
+		panic(cl.errorf(assign, "can't compile %s yet", assign.Tok))
+	}
 	for _, lhs := range assign.Lhs {
 		_, ok := lhs.(*ast.Ident)
 		if !ok {
